@@ -28,7 +28,13 @@ Next == PickBlock \/ PickTrace
 \* separately already implies "gives the same result".
 \* scale cases (arrays given by generators, results in compressed form) are judged through
 \* the laws of ArrayMatch.tla, section "scale"; their representation is part of the case.
+\* world sessions (a sequence of calls and caller steps in one process; one observation per step):
+\* every call is judged for the contents its arguments had at the time of the call.
 FailingRec(r) ==
+    IF r.c.kind = "session"
+    THEN AMSessionFailing(r.c, r.obs) \cup
+         (IF AMSessionOK(r.c) THEN {} ELSE {<<1, "representation", "bad_representation">>})
+    ELSE
     IF r.c.kind \in {"smatch", "sdedup"}
     THEN UNION {{<<k, r.obs[k].fn, cl>> : cl \in AMScaleFailing(r.c, r.obs[k])} : k \in DOMAIN r.obs} \cup
          (IF AMScaleRepOK(r.c, r.c.rep) THEN {} ELSE {<<1, "representation", "bad_representation">>})
